@@ -780,12 +780,6 @@ func init() {
 		}
 		return notHandled{}
 	}
-	intrinsics["github.com/invopop/validation.ValidateStructWithContext"] = func(fr *frame, args []value) value {
-		if v, ok := flagErr(fr, "validate.struct"); ok {
-			return v
-		}
-		return notHandled{}
-	}
 
 	// context.WithValue without the reflectlite comparability check
 	intrinsics["context.WithValue"] = func(fr *frame, args []value) value {
